@@ -218,3 +218,39 @@ def contacts_equal(a, b):
     if a[k].tobytes() != b[k].tobytes():
       return False, f"contact.{k} differs"
   return True, ""
+
+
+def clone_into(dst, src):
+  """Copies every array of Data `src` (incl. efc and contact) into the equally shaped Data `dst`."""
+  import dataclasses
+
+  import warp as wp
+
+  def cp(a, b):
+    for f in dataclasses.fields(type(a)):
+      va, vb = getattr(a, f.name), getattr(b, f.name)
+      if isinstance(va, wp.array) and isinstance(vb, wp.array):
+        if va.shape == vb.shape and va.size:
+          wp.copy(va, vb)
+      elif dataclasses.is_dataclass(va) and dataclasses.is_dataclass(vb) and not isinstance(va, type):
+        cp(va, vb)
+
+  cp(dst, src)
+  return dst
+
+
+def max_rel_diff(a, b, names, w):
+  """max over float fields of |a-b|/max(1,|a|,|b|) for world w; inf if an integer field differs."""
+  worst = 0.0
+  for k in names:
+    x, y = np.asarray(a[k][w]), np.asarray(b[k][w])
+    if x.tobytes() == y.tobytes():
+      continue
+    if x.dtype.kind in "iub":
+      return float("inf")
+    x64, y64 = x.astype(np.float64), y.astype(np.float64)
+    if not (np.all(np.isfinite(x64)) and np.all(np.isfinite(y64))):
+      return float("inf")
+    scale = max(1.0, float(np.abs(x64).max()), float(np.abs(y64).max()))
+    worst = max(worst, float(np.abs(x64 - y64).max()) / scale)
+  return worst
